@@ -34,8 +34,27 @@ ASSUMPTIONS = ["deterministic base learners and fixed random_state, so that equa
 EXHAUSTIVE = {"quick": ["all operation sequences of length <= 2 and all sequences of length 3 that end in a fit, per kit and data variant"],
               "thorough": ["all operation sequences of length <= 4 per kit and data variant"]}
 OPS = ["fit1", "fit2", "predict", "pickle", "clone"]
-KITS = ["to_prefit", "to_fit", "eg_nu", "eg_nu_none", "grid", "corr", "adv_clf", "adv_reg", "adv_clf_dropout", "corr_df", "grid_custom"]
+KITS = ["to_prefit", "to_fit", "eg_nu", "eg_nu_none", "grid", "corr", "adv_clf", "adv_reg", "adv_clf_dropout", "corr_df", "grid_custom", "adv_clf_early_stop"]
 VARIANTS = ["other_size", "other_width"]
+
+
+class StopAtStep:
+    """stateless early-stopping callback: asks to stop once `step` training steps are done"""
+
+    def __init__(self, step):
+        self.step = step
+
+    def __call__(self, model, step=None, **kw):
+        return bool(step is not None and step >= self.step)
+
+    def __repr__(self):
+        return "StopAtStep(%d)" % self.step
+
+    def __eq__(self, other):
+        return isinstance(other, StopAtStep) and other.step == self.step
+
+    def __hash__(self):
+        return hash(("StopAtStep", self.step))
 
 
 def sequences(maxlen):
@@ -116,6 +135,10 @@ def make(kit):
     if kit == "adv_clf":
         return AdversarialFairnessClassifier(backend="torch", predictor_model=[4, "relu"], adversary_model=[3, "relu"], learning_rate=0.05,
                                              epochs=2, batch_size=8, shuffle=False, random_state=11, predictor_optimizer="Adam", adversary_optimizer="SGD")
+    if kit == "adv_clf_early_stop":
+        # training ended by a callback (early stopping) - fit still returns the estimator and a refit starts from scratch
+        return AdversarialFairnessClassifier(backend="torch", predictor_model=[4, "relu"], adversary_model=[3, "relu"], learning_rate=0.05,
+                                             epochs=3, batch_size=6, shuffle=False, random_state=7, callbacks=[StopAtStep(3), StopAtStep(50)])
     if kit == "adv_clf_dropout":
         import torch
 
@@ -281,6 +304,18 @@ def run_case(cls, key, seed, ctx):
             ctx.check(a.shape == b.shape and a.tolist() == b.tolist(), "repeated_predict_with_same_seed_differs:%s" % type(est).__name__, wit=w)
             ok, why = same_fp(before, fingerprint(kit, est, D))
             ctx.check(ok, "predict_alters_fitted_state:%s" % type(est).__name__, difference=why, wit=w)
+            if kit != "corr_df":
+                # scoring loops refill one buffer: the same array object with new contents must be answered like a fresh array
+                Db = dict(D, probe=np.array(D["probe"], copy=True), probe_g=list(D["probe_g"]) if D.get("probe_g") is not None else None)
+                predict_once(kit, est, Db)
+                Db["probe"][:] = Db["probe"][::-1].copy()
+                if Db["probe_g"] is not None:
+                    Db["probe_g"] = Db["probe_g"][::-1]
+                r_same_object = predict_once(kit, est, Db)
+                r_fresh_object = predict_once(kit, est, dict(Db, probe=np.array(Db["probe"], copy=True)))
+                ctx.ev("predict_purity_checks")
+                ctx.check(r_same_object.shape == r_fresh_object.shape and r_same_object.tolist() == r_fresh_object.tolist(),
+                          "prediction_for_a_refilled_array_object_differs_from_a_fresh_array_with_the_same_contents:%s" % type(est).__name__, wit=w)
         elif op == "pickle":
             if kit.startswith("adv"):
                 continue  # the property promises pickling only for ThresholdOptimizer, EG, GridSearch, CorrelationRemover
